@@ -246,3 +246,121 @@ Definition legacy_graph_ok (j : json) (u : str) (g : list (str * list (str * str
           negb (mem_str entry (legacy_nodes f)) || match ns with n :: _ => str_eqb n entry | [] => false end)
   | _ => false
   end.
+
+(* ---- the reader's checks on members that Migrate13_3 writes through the refactoring function ----------------------------
+   These depend on the TEXT of a template member (not only on its shape), so a migration that rewrites templates must
+   keep them:  `required` on add_contact_urn.path, send_msg/send_broadcast.text, call_classifier.input, call_webhook.url,
+   play_audio.audio_url, say_msg.text, send_email.subject/body, switch router operand;  `attachment` on every element of
+   send_msg/send_broadcast.attachments;  "exactly one of id and matcher" on group / label / user references
+   (assets.GroupReferenceValidation etc.: uuid xor name_match, email xor email_match). *)
+
+Definition k_attachments := s "attachments".
+Definition k_groups := s "groups".
+Definition k_labels := s "labels".
+Definition k_assignee := s "assignee".
+Definition k_operand := s "operand".
+Definition k_name_match := s "name_match".
+Definition k_email := s "email".
+Definition k_email_match := s "email_match".
+
+(* strings.ToLower, as far as it can produce a character the content type expression admits *)
+Definition lower_rune (c : N) : N :=
+  if (65 <=? c) && (c <=? 90) then c + 32 else if c =? 8490 then 107 else if c =? 304 then 105 else c.
+
+Definition word_char (c : N) : bool :=
+  ((97 <=? c) && (c <=? 122)) || ((65 <=? c) && (c <=? 90)) || ((48 <=? c) && (c <=? 57)) || (c =? 95).
+Definition subtype_char (c : N) : bool := word_char c || (c =? 45) || (c =? 43) || (c =? 46).
+
+(* text before the first occurrence of a character, and after it; None: no occurrence *)
+Fixpoint split_at (sep : N) (x : str) : option (str * str) :=
+  match x with
+  | [] => None
+  | c :: r => if c =? sep then Some ([], r)
+              else match split_at sep r with Some (a, b) => Some (c :: a, b) | None => None end
+  end.
+
+(* ^(image|audio|video|application|geo|unavailable|(\w+/[-+.\w]+))$ *)
+Definition content_type_ok (t : str) : bool :=
+  existsb (fun w => str_eqb t (s w)) ["image"; "audio"; "video"; "application"; "geo"; "unavailable"]%string
+  || match split_at 47 t with
+     | Some (a, b) => nonempty a && forallb word_char a && nonempty b && forallb subtype_char b
+     | None => false
+     end.
+
+(* utils.IsValidAttachment *)
+Definition attachment_ok (x : str) : bool :=
+  match split_at 58 x with
+  | Some (t, url) => content_type_ok (map lower_rune t) && nonempty url
+  | None => false
+  end.
+
+Definition attachments_ok (a : obj) : bool :=
+  match olookup k_attachments a with
+  | None | Some JNull => true
+  | Some (JArr l) => forallb (fun v => match v with JStr x => attachment_ok x | JNull => false | _ => false end) l
+  | Some _ => false
+  end.
+
+(* a reference with an id member and a matcher member: exactly one of them is set *)
+Definition reference_ok (id matcher : str) (v : json) : bool :=
+  match v with
+  | JNull => true
+  | JObj r =>
+      match string_field id r, string_field matcher r with
+      | FText a, FText b => xorb (nonempty a) (nonempty b)
+      | _, _ => false
+      end
+  | _ => false
+  end.
+
+Definition references_ok (k id matcher : str) (a : obj) : bool :=
+  match olookup k a with
+  | None | Some JNull => true
+  | Some (JArr l) => forallb (reference_ok id matcher) l
+  | Some _ => false
+  end.
+
+Definition required_texts : list (string * list str) :=
+  [("add_contact_urn", [s "path"]); ("send_msg", [s "text"]); ("send_broadcast", [s "text"]);
+   ("call_classifier", [s "input"]); ("call_webhook", [s "url"]); ("play_audio", [s "audio_url"]);
+   ("say_msg", [s "text"]); ("send_email", [s "subject"; s "body"])]%string.
+
+Definition action_texts_ok (a : obj) : bool :=
+  forallb (fun row : string * list str =>
+             negb (is_type (fst row) a) || forallb (fun k => required_field nonempty k a) (snd row)) required_texts
+  && (negb (is_any_type ["send_msg"; "send_broadcast"]%string a) || attachments_ok a)
+  && (negb (is_any_type ["add_contact_groups"; "remove_contact_groups"; "send_broadcast"; "start_session"]%string a)
+      || references_ok k_groups k_uuid k_name_match a)
+  && (negb (is_type "add_input_labels" a) || references_ok k_labels k_uuid k_name_match a)
+  && (negb (is_type "open_ticket" a)
+      || match olookup k_assignee a with None => true | Some v => reference_ok k_email k_email_match v end).
+
+Definition router_texts_ok (r : obj) : bool :=
+  negb (is_type "switch" r) || required_field nonempty k_operand r.
+
+Definition node_texts_ok (n : json) : bool :=
+  match n with
+  | JObj o =>
+      (match olookup k_actions o with
+       | Some (JArr l) => forallb (fun a => match a with JObj a => action_texts_ok a | _ => true end) l
+       | _ => true
+       end)
+      && (match olookup k_router o with Some (JObj r) => router_texts_ok r | _ => true end)
+  | _ => true
+  end.
+
+Definition texts_ok (f : obj) : bool :=
+  match olookup k_nodes f with Some (JArr l) => forallb node_texts_ok l | _ => true end.
+
+(* valid at the version of its header, template members included *)
+Definition valid_source_full (strict : bool) (j : json) : bool :=
+  valid_source_with strict j && match j with JObj f => texts_ok f | _ => false end.
+
+(* loads at the current version, template members included *)
+Definition valid_current_full (j : json) : bool :=
+  valid_current j && match j with JObj f => texts_ok f | _ => false end.
+
+(* what the validity argument needs of the refactoring function: it keeps empty texts empty and non-empty ones
+   non-empty, and it does not change whether a text is an acceptable attachment *)
+Definition tx_keeps_on (tx : str -> str) (x : str) : bool :=
+  Bool.eqb (nonempty (tx x)) (nonempty x) && Bool.eqb (attachment_ok (tx x)) (attachment_ok x).
